@@ -1824,8 +1824,12 @@ class SpaceUpdater(SharedSpaceOperations):
 
         # Remove node and its child tree
         nodes_removed = list()
+        refs_removed = list()   # The defined references go with their spaces
         for child in self._graph.visit_tree(node):
             nodes_removed.append(child)
+            refs_removed.extend(
+                r for r in self._graph.to_space(child).own_refs.values()
+                if r.is_defined())
             self._remove_hook(self._graph, child)
 
         # The sub spaces of every removed space, outside the removed tree
@@ -1849,6 +1853,9 @@ class SpaceUpdater(SharedSpaceOperations):
 
         self._instructions.execute()
         self._update_manager()
+
+        for ref in refs_removed:
+            self.model.refmgr.forget_ref(ref)
 
         if space is self.model.currentspace:
             self.model.currentspace = None
@@ -1983,6 +1990,22 @@ class ReferenceManager:
                 )
                 if spec:
                     self._manager.del_spec(spec)
+
+    def forget_ref(self, ref):
+        """Unregister a defined reference deleted together with its space"""
+        val = ref.interface
+        if not isinstance(val, Interface):
+            refs = self._valid_to_refs.get(id(val))
+            if refs is not None and ref in refs:
+                refs.remove(ref)
+                if not refs:
+                    del self._valid_to_refs[id(val)]
+                    spec = self._manager.get_spec_from_value(
+                        io_group=self._model.interface,
+                        value=val
+                    )
+                    if spec is not None:
+                        self._manager.del_spec(spec)
 
     def change_ref(self, impl, name, value, refmode=None):
 
